@@ -19,6 +19,8 @@
      Early[c]    peer c may write application data as soon as it has produced its last flight (TLS 1.3 client,
                  TLS 1.2 server); otherwise once mitmproxy's last flight reached it
      Post[c]     items the peer emits after mitmproxy's last flight reached it (TLS 1.3 server: session tickets)
+     MaxPeerData[c], MaxChildData[c], MaxCuts   bounds: application writes of peer c / of the inner layer to c,
+                 segments that end inside a record
      Mode        "lazy": the inner layer opens the server later;  "server_first": tls_clienthello asks for the
                  server handshake first (ClientTLSLayer blocks on OpenConnection)                             *)
 EXTENDS Mon_TlsTunnel, TLC
@@ -35,8 +37,8 @@ VARIABLES net,      \* [Sides -> Seq(item)]
           q1,       \* ClientTLSLayer._paused_event_queue (Layer.handle_event while blocked)
           q2,       \* ClientTLSLayer._event_queue (TunnelLayer.event_to_child while ESTABLISHING)
           q3,       \* inner layer's _paused_event_queue
-          pd, cd, nid, cuts, mon, obs
-vars == <<net, off, hs, pdone, cnsent, finned, shut, ctls, srv, inner, q1, q2, q3, pd, cd, nid, cuts, mon, obs>>
+          pd, cd, cuts, mon, obs
+vars == <<net, off, hs, pdone, cnsent, finned, shut, ctls, srv, inner, q1, q2, q3, pd, cd, cuts, mon, obs>>
 
 Ev(e, c, ids) == [e |-> e, c |-> c, ids |-> ids]
 Both(v) == [c \in Sides |-> v]
@@ -45,7 +47,7 @@ Init == /\ net = [c \in Sides |-> IF c = "client" THEN <<[t |-> "hs", id |-> 1]>
         /\ off = Both(0) /\ hs = Both(0) /\ pdone = Both(FALSE) /\ cnsent = Both(FALSE) /\ finned = Both(FALSE)
         /\ shut = Both(FALSE) /\ ctls = "hello" /\ srv = "closed" /\ inner = "nostart"
         /\ q1 = <<>> /\ q2 = <<Ev("start", "client", <<>>)>> /\ q3 = <<>>       \* Start is queued by event_to_child
-        /\ pd = Both(0) /\ cd = Both(0) /\ nid = 1 /\ cuts = 0 /\ mon = MonInit /\ obs = <<>>
+        /\ pd = Both(0) /\ cd = Both(0) /\ cuts = 0 /\ mon = MonInit /\ obs = <<>>
 
 Live == mon.bad = <<>>
 Emit(evs) == obs' = evs /\ mon' = FoldEvents(MonStep, mon, evs)
@@ -108,51 +110,55 @@ Deliver(c, n) ==
          ids == [i \in 1..Len(datas) |-> datas[i].id]
          hasCn == \E i \in 1..Len(done) : done[i].t = "cn"
          final == flights # <<>> /\ flights[1].id = Flights[c]
-         w0 == [W0([k |-> "deliver", c |-> c, all |-> (rest = <<>>), part |-> (part = 1)]) EXCEPT !.net[c] = rest]
-         w1 == IF flights # <<>> THEN HsStep(w0, c, flights[1].id) ELSE w0
-         \* receive_data: all plaintext of the segment is one DataReceived, then the close
-         w2 == IF ids # <<>> THEN Route(w1, c, Ev("data", c, ids)) ELSE w1
-         w3 == IF hasCn THEN Route([w2 EXCEPT !.shut[c] = TRUE], c, Ev("closed", c, <<>>)) ELSE w2
-         w4 == IF final THEN Finished(w3, c) ELSE w3
      IN /\ (part = 1 => cuts < MaxCuts)
         /\ cuts' = cuts + part /\ off' = [off EXCEPT ![c] = part]
-        /\ Commit(w4) /\ UNCHANGED <<cnsent, finned, pd, cd, nid>>
+        \* (each stage is bound by a singleton quantifier so that TLC evaluates it once)
+        /\ \E w0 \in {[W0([k |-> "deliver", c |-> c, all |-> (rest = <<>>), part |-> (part = 1)]) EXCEPT !.net[c] = rest]} :
+           \E w1 \in {IF flights # <<>> THEN HsStep(w0, c, flights[1].id) ELSE w0} :
+           \* receive_data: all plaintext of the segment is one DataReceived, then the close
+           \E w2 \in {IF ids # <<>> THEN Route(w1, c, Ev("data", c, ids)) ELSE w1} :
+           \E w3 \in {IF hasCn THEN Route([w2 EXCEPT !.shut[c] = TRUE], c, Ev("closed", c, <<>>)) ELSE w2} :
+           \E w4 \in {IF final THEN Finished(w3, c) ELSE w3} : Commit(w4)
+        /\ UNCHANGED <<cnsent, finned, pd, cd>>
 
+\* payload byte values: one range per stream, so that the order of independent actions does not multiply states
+PeerId(c) == (IF c = "client" THEN 10 ELSE 20) + pd[c] + 1
+ChildId(c) == (IF c = "client" THEN 30 ELSE 40) + cd[c] + 1
 \* the peer writes application data (one SSL_write = one record) / sends close_notify
 PeerSend(c) ==
-  /\ Live /\ pdone[c] /\ ~cnsent[c] /\ ~finned[c] /\ pd[c] < MaxPeerData
-  /\ net' = [net EXCEPT ![c] = Append(@, [t |-> "data", id |-> nid])]
-  /\ pd' = [pd EXCEPT ![c] = @ + 1] /\ nid' = nid + 1
-  /\ Emit(<<[k |-> "peer_send", c |-> c, id |-> nid, len |-> 1]>>)
+  /\ Live /\ pdone[c] /\ ~cnsent[c] /\ ~finned[c] /\ pd[c] < MaxPeerData[c]
+  /\ net' = [net EXCEPT ![c] = Append(@, [t |-> "data", id |-> PeerId(c)])]
+  /\ pd' = [pd EXCEPT ![c] = @ + 1]
+  /\ Emit(<<[k |-> "peer_send", c |-> c, id |-> PeerId(c), len |-> 1]>>)
   /\ UNCHANGED <<off, hs, pdone, cnsent, finned, shut, ctls, srv, inner, q1, q2, q3, cd, cuts>>
 PeerCloseNotify(c) ==
   /\ Live /\ pdone[c] /\ ~cnsent[c] /\ ~finned[c]
   /\ net' = [net EXCEPT ![c] = Append(@, [t |-> "cn", id |-> 0])] /\ cnsent' = [cnsent EXCEPT ![c] = TRUE]
   /\ Emit(<<[k |-> "peer_cn", c |-> c]>>)
-  /\ UNCHANGED <<off, hs, pdone, finned, shut, ctls, srv, inner, q1, q2, q3, pd, cd, nid, cuts>>
+  /\ UNCHANGED <<off, hs, pdone, finned, shut, ctls, srv, inner, q1, q2, q3, pd, cd, cuts>>
 
 \* ConnectionClosed(c) from the transport, after everything c sent: TLSLayer.receive_close
 Fin(c) ==
   /\ Live /\ ~finned[c] /\ net[c] = <<>> /\ hs[c] = Flights[c]
   /\ (IF c = "client" THEN ctls = "open" ELSE srv = "open")
   /\ finned' = [finned EXCEPT ![c] = TRUE]
-  /\ LET w0 == W0([k |-> "fin", c |-> c]) IN
-     Commit(IF shut[c] THEN w0 ELSE Route(w0, c, Ev("closed", c, <<>>)))
-  /\ UNCHANGED <<off, cnsent, pd, cd, nid, cuts>>
+  /\ \E w0 \in {W0([k |-> "fin", c |-> c])} :
+     \E w1 \in {IF shut[c] THEN w0 ELSE Route(w0, c, Ev("closed", c, <<>>))} : Commit(w1)
+  /\ UNCHANGED <<off, cnsent, pd, cd, cuts>>
 
 \* the inner layer sends: TLSLayer.send_data (sendall + tls_interact); the harness hands the record to the peer
 ChildSend(c) ==
-  /\ Live /\ inner = "ready" /\ (c = "server" => srv = "open") /\ ~finned[c] /\ cd[c] < MaxChildData
-  /\ cd' = [cd EXCEPT ![c] = @ + 1] /\ nid' = nid + 1
-  /\ Emit(<<[k |-> "child_send", c |-> c, id |-> nid, len |-> 1],
-            [k |-> "peer_recv", c |-> c, runs |-> <<<<nid, 1>>>>]>>)
+  /\ Live /\ inner = "ready" /\ (c = "server" => srv = "open") /\ ~finned[c] /\ cd[c] < MaxChildData[c]
+  /\ cd' = [cd EXCEPT ![c] = @ + 1]
+  /\ Emit(<<[k |-> "child_send", c |-> c, id |-> ChildId(c), len |-> 1],
+            [k |-> "peer_recv", c |-> c, runs |-> <<<<ChildId(c), 1>>>>]>>)
   /\ UNCHANGED <<net, off, hs, pdone, cnsent, finned, shut, ctls, srv, inner, q1, q2, q3, pd, cuts>>
 
 \* the inner layer opens the server connection and blocks: TunnelLayer._handle_command(OpenConnection)
 ChildOpen ==
   /\ Live /\ Mode = "lazy" /\ inner = "ready" /\ srv = "closed"
-  /\ Commit(OpenServer([W0([k |-> "child_open"]) EXCEPT !.inner = "opening"]))
-  /\ UNCHANGED <<off, cnsent, finned, pd, cd, nid, cuts>>
+  /\ \E w \in {OpenServer([W0([k |-> "child_open"]) EXCEPT !.inner = "opening"])} : Commit(w)
+  /\ UNCHANGED <<off, cnsent, finned, pd, cd, cuts>>
 
 Next == \/ \E c \in Sides, n \in 1..8 : Deliver(c, n)
         \/ \E c \in Sides : PeerSend(c)
@@ -162,7 +168,7 @@ Next == \/ \E c \in Sides, n \in 1..8 : Deliver(c, n)
         \/ ChildOpen
 Spec == Init /\ [][Next]_vars
 \* witnesses only record which antecedents were exercised; they must not multiply the states TLC explores
-View == <<net, off, hs, pdone, cnsent, finned, shut, ctls, srv, inner, q1, q2, q3, pd, cd, nid, cuts,
+View == <<net, off, hs, pdone, cnsent, finned, shut, ctls, srv, inner, q1, q2, q3, pd, cd, cuts,
           [mon EXCEPT !.wit = {}], obs>>
 Report == mon.bad # <<>> => PrintT(<<"BAD", mon.bad>>)
 =============================================================================
